@@ -909,6 +909,11 @@ def run_job(job, seed=0, replay_dir=None, cross_check=0):
             offgrid_probe(job, S, V, ex, res, real_outcome, known, replay_dir)
         except Exception as e:
             res["inconclusive"].append(f"off-grid probe failed: {e!r}")
+    if hasattr(job, "offgrid_transforms") and not res["violations"] and not job.expect_canary_sat:
+        try:
+            transform_probe(job, S, V, ex, res, real_outcome, known, replay_dir)
+        except Exception as e:
+            res["inconclusive"].append(f"transform probe failed: {e!r}")
     if hasattr(job, "offgrid_pins") and not res["violations"] and not job.expect_canary_sat:
         try:
             pinned_probe(job, S, V, ex, res, real_outcome, known, replay_dir)
@@ -1164,6 +1169,49 @@ def offgrid_probe(job, S, V, ex, res, real_outcome, known, replay_dir, budget=12
             if bad:
                 res["violations"].append(_violation(job, bad[0] + " [inputs off the dyadic grid G]", Sc, rout, rout, None, replay_dir,
                                                     via="off-grid probe of the real code"))
+                return
+
+
+def transform_probe(job, S, V, ex, res, real_outcome, known, replay_dir, budget=40):
+    """Real-code probe on inputs obtained from grid models by an exact transformation under which the property is invariant over
+    the reals (e.g. adding 2^30 to every data value of a spread test).  `job.offgrid_transforms()` yields (label, transform, safe):
+    `transform(Sc)` maps concrete inputs to the probe inputs, `safe(Sc')` says whether every oracle comparison keeps a wide margin on
+    the exact rational values (so that the unchanged code's own rounding cannot flip it).  The oracle is evaluated exactly on the
+    transformed inputs; a formula that is equivalent over the reals but cancels catastrophically in binary64 shows up here."""
+    from . import findings
+    excl = [mk_not(p) for _, p in known]
+    n = getattr(job, "n", None)
+    atoms = []
+    if n is not None:
+        try:
+            dummy = Outcome(flags=[z3.Int(f"dummy!f{i}") for i in range(n)], mask=[FALSE] * n, shape=(n,), dtype="uint8")
+            for a in _atoms([f for _, f in job.holds(S, dummy)]):
+                if not any(str(c).startswith("dummy!") for c in _consts(a)):
+                    atoms += [a, z3.Not(a)]
+        except Exception:
+            pass
+    hard = list(V.assumptions) + list(V.grid) + excl
+    models = _scattered_models(V, hard, [[a] for a in atoms[:budget]] or [[]], getattr(job, "name", "") + "/transform", per_path=1)
+    seen = set()
+    for label, transform, safe in job.offgrid_transforms():
+        for m in models:
+            if not exact_on_grid(S, m):
+                continue
+            Sc = transform(concretize(S, m))
+            key = label + json.dumps(jsonable(Sc), sort_keys=True)
+            if key in seen or not safe(Sc):
+                continue
+            seen.add(key)
+            _, rout = real_outcome(None, Sc)
+            try:
+                robl = job.holds(findings.symbolize(Sc), rout)
+            except Exception:
+                continue
+            res["offgrid_probes"] = res.get("offgrid_probes", 0) + 1
+            bad = [lab for lab, f in robl if not concrete_truth(None, f)]
+            if bad:
+                res["violations"].append(_violation(job, bad[0] + f" [{label}]", Sc, rout, rout, None, replay_dir,
+                                                    via="transform probe of the real code"))
                 return
 
 
